@@ -14,6 +14,7 @@ import (
 
 	"github.com/olric-data/olric"
 	"github.com/olric-data/olric/internal/cluster/partitions"
+	"github.com/olric-data/olric/internal/dmap"
 	"github.com/olric-data/olric/internal/kvstore"
 	"github.com/olric-data/olric/internal/kvstore/entry"
 	"github.com/olric-data/olric/pkg/storage"
@@ -322,6 +323,43 @@ func runAliasCluster(sc *aliasScenario) (res aliasResult) {
 				_ = p.Discard() // returns the command slices to the shared pool (and closes the pipeline)
 				ob = []interface{}{"code", cliCode(err)}
 			case "get":
+				if op[1].(string) == "bak" {
+					// the backup copy itself (white box): with asynchronous replication it is written by a goroutine that
+					// outlives the Put call, so wait until it carries the primary copy's timestamp
+					key := hexKey(op[2])
+					ki := cl.KeyInfo(name, key)
+					if len(ki.Backups) > 0 {
+						var bc dmap.VerifCopy
+						deadline := time.Now().Add(2 * time.Second)
+						for {
+							pc := cl.Members[ki.Owner].DB.VerifDMap().VerifCopy(partitions.PRIMARY, name, ki.HKey)
+							found := false
+							for _, b := range ki.Backups {
+								if b >= 0 && cl.Members[b].Alive {
+									c := cl.Members[b].DB.VerifDMap().VerifCopy(partitions.BACKUP, name, ki.HKey)
+									if c.Found || !found {
+										bc, found = c, true
+									}
+									if c.Found {
+										break
+									}
+								}
+							}
+							if (bc.Found == pc.Found && (!pc.Found || bc.Timestamp == pc.Timestamp)) || time.Now().After(deadline) {
+								break
+							}
+							time.Sleep(5 * time.Millisecond)
+						}
+						if !bc.Found {
+							ob = []interface{}{"val", "notfound"}
+							return
+						}
+						st.handles = append(st.handles, &handle{b: bc.Value})
+						ob = []interface{}{"val", "nil", hex.EncodeToString(bc.Value)}
+						return
+					}
+					op[1] = "cc"
+				}
 				g, err := vc.get(op[1].(string), hexKey(op[2]))
 				if err != nil {
 					ob = []interface{}{"val", cliCode(err)}
